@@ -327,35 +327,47 @@ class UnitOfWork(object):
         """
         session = sa.orm.object_session(version_obj)
 
-        for class_ in version_obj.__class__.__mro__:
-            if class_ in self.manager.parent_class_map:
+        # The version table of the topmost versioned class of an inheritance
+        # hierarchy holds a row for every version of the entity, whichever
+        # class of the hierarchy it had at the time: the predecessor found
+        # there is the version this one supersedes. It is loaded as an object
+        # of its own class, so assigning the end transaction closes its row
+        # in every table it spans. (Looking for a predecessor in each table
+        # separately closed, for an entity that came back as another class
+        # of the hierarchy, an older version than the preceding one.)
+        class_ = [
+            class_ for class_ in version_obj.__class__.__mro__
+            if class_ in self.manager.parent_class_map
+        ][-1]
+        subquery = self.version_validity_subquery(
+            parent,
+            version_obj,
+            alias=sa.orm.aliased(class_.__table__)
+        )
+        subquery = subquery.scalar_subquery()
 
-                subquery = self.version_validity_subquery(
-                    parent,
-                    version_obj,
-                    alias=sa.orm.aliased(class_.__table__)
-                )
-                subquery = subquery.scalar_subquery()
+        vobj_tx_col = getattr(class_, tx_column_name(version_obj))
+        query = (
+            sa.select(class_)
+            .where(
+                vobj_tx_col == subquery,
+                *[
+                    getattr(version_obj, pk) ==
+                    getattr(class_.__table__.c, pk)
+                    for pk in get_primary_keys(class_)
+                    if pk != tx_column_name(class_)
+                ]
+            )
+            .execution_options(synchronize_session=False)
+        )
 
-                vobj_tx_col = getattr(class_, tx_column_name(version_obj))
-                query = (
-                    sa.select(class_)
-                    .where(
-                        vobj_tx_col == subquery,
-                        *[
-                            getattr(version_obj, pk) ==
-                            getattr(class_.__table__.c, pk)
-                            for pk in get_primary_keys(class_)
-                            if pk != tx_column_name(class_)
-                        ]
-                    )
-                    .execution_options(synchronize_session=False)
-                )
-
-                old_versions = session.scalars(query).all()
-                for old_version in old_versions:
-                    setattr(old_version, end_tx_column_name(version_obj), self.current_transaction.id)
-
+        old_versions = session.scalars(query).all()
+        for old_version in old_versions:
+            setattr(
+                old_version,
+                end_tx_column_name(version_obj),
+                self.current_transaction.id
+            )
 
     def create_association_versions(self, session):
         """
